@@ -33,7 +33,8 @@ Record cfg := {
   c_catch_all : bool;   (* non-std exceptions of user formatters are contained (F4) *)
   c_report_first : bool;(* failure counters are reported right before an exited thread's context is removed (F9) *)
   c_bt : bt_cfg;        (* BacktraceStorage facts (index reset, capacity-0 guard) *)
-  c_bt_catch : bool     (* a throwing sink during a backtrace replay is contained per event (F6) *)
+  c_bt_catch : bool;    (* a throwing sink during a backtrace replay is contained per event (F6) *)
+  c_flush_iv : N        (* BackendOptions::sink_min_flush_interval in clock ticks (0 = flush in every idle stage) *)
 }.
 
 (* ------------------------------------------------------------------ state *)
@@ -92,6 +93,7 @@ Record st := {
   lg : nat -> lgr;
   sk : nat -> snk;
   nsinks : nat; nloggers : nat;
+  lastfl : N;                 (* _last_sink_flush_time (steady clock; the driver's two clocks advance together) *)
   flags : list N;             (* flush flags already set (request ids) *)
   obs : list N;               (* observation log (appended) *)
   (* ghosts *)
@@ -112,32 +114,32 @@ Definition O_FLAG : N := 4.    (* (unused: the flag is observed only through the
 (* record setters *)
 Definition set_th s f := {| clock := clock s; th := f; registered := registered s; newflag := newflag s;
   invalid_cnt := invalid_cnt s; cache := cache s; pc := pc s; tsnow := tsnow s; lg := lg s; sk := sk s;
-  nsinks := nsinks s; nloggers := nloggers s; flags := flags s; obs := obs s;
+  nsinks := nsinks s; nloggers := nloggers s; lastfl := lastfl s; flags := flags s; obs := obs s;
   issued := issued s; delivered := delivered s; plog := plog s; gh := gh s |}.
 Definition set_pc s p := {| clock := clock s; th := th s; registered := registered s; newflag := newflag s;
   invalid_cnt := invalid_cnt s; cache := cache s; pc := p; tsnow := tsnow s; lg := lg s; sk := sk s;
-  nsinks := nsinks s; nloggers := nloggers s; flags := flags s; obs := obs s;
+  nsinks := nsinks s; nloggers := nloggers s; lastfl := lastfl s; flags := flags s; obs := obs s;
   issued := issued s; delivered := delivered s; plog := plog s; gh := gh s |}.
 Definition add_obs s o := {| clock := clock s; th := th s; registered := registered s; newflag := newflag s;
   invalid_cnt := invalid_cnt s; cache := cache s; pc := pc s; tsnow := tsnow s; lg := lg s; sk := sk s;
-  nsinks := nsinks s; nloggers := nloggers s; flags := flags s; obs := obs s ++ o;
+  nsinks := nsinks s; nloggers := nloggers s; lastfl := lastfl s; flags := flags s; obs := obs s ++ o;
   issued := issued s; delivered := delivered s; plog := plog s; gh := gh s |}.
 Definition set_sk s f := {| clock := clock s; th := th s; registered := registered s; newflag := newflag s;
   invalid_cnt := invalid_cnt s; cache := cache s; pc := pc s; tsnow := tsnow s; lg := lg s; sk := f;
-  nsinks := nsinks s; nloggers := nloggers s; flags := flags s; obs := obs s;
+  nsinks := nsinks s; nloggers := nloggers s; lastfl := lastfl s; flags := flags s; obs := obs s;
   issued := issued s; delivered := delivered s; plog := plog s; gh := gh s |}.
 Definition set_lg s f := {| clock := clock s; th := th s; registered := registered s; newflag := newflag s;
   invalid_cnt := invalid_cnt s; cache := cache s; pc := pc s; tsnow := tsnow s; lg := f; sk := sk s;
-  nsinks := nsinks s; nloggers := nloggers s; flags := flags s; obs := obs s;
+  nsinks := nsinks s; nloggers := nloggers s; lastfl := lastfl s; flags := flags s; obs := obs s;
   issued := issued s; delivered := delivered s; plog := plog s; gh := gh s |}.
 Definition set_cache s c nf := {| clock := clock s; th := th s; registered := registered s; newflag := nf;
   invalid_cnt := invalid_cnt s; cache := c; pc := pc s; tsnow := tsnow s; lg := lg s; sk := sk s;
-  nsinks := nsinks s; nloggers := nloggers s; flags := flags s; obs := obs s;
+  nsinks := nsinks s; nloggers := nloggers s; lastfl := lastfl s; flags := flags s; obs := obs s;
   issued := issued s; delivered := delivered s; plog := plog s; gh := gh s |}.
 
 Definition set_gh s g := {| clock := clock s; th := th s; registered := registered s; newflag := newflag s;
   invalid_cnt := invalid_cnt s; cache := cache s; pc := pc s; tsnow := tsnow s; lg := lg s; sk := sk s;
-  nsinks := nsinks s; nloggers := nloggers s; flags := flags s; obs := obs s;
+  nsinks := nsinks s; nloggers := nloggers s; lastfl := lastfl s; flags := flags s; obs := obs s;
   issued := issued s; delivered := delivered s; plog := plog s; gh := g |}.
 Definition gh_denied g := {| g_denied := g_denied g + 1; g_reported := g_reported g; g_lost := g_lost g |}.
 Definition gh_reported g n := {| g_denied := g_denied g; g_reported := g_reported g + n; g_lost := g_lost g |}.
@@ -193,7 +195,7 @@ Definition fstep (s : st) (o : fop) : st :=
   match o with
   | FTick d => {| clock := clock s + d; th := th s; registered := registered s; newflag := newflag s;
       invalid_cnt := invalid_cnt s; cache := cache s; pc := pc s; tsnow := tsnow s; lg := lg s; sk := sk s;
-      nsinks := nsinks s; nloggers := nloggers s; flags := flags s; obs := obs s;
+      nsinks := nsinks s; nloggers := nloggers s; lastfl := lastfl s; flags := flags s; obs := obs s;
       issued := issued s; delivered := delivered s; plog := plog s; gh := gh s |}
   | FClock t e =>
       let x := th s t in
@@ -210,7 +212,7 @@ Definition fstep (s : st) (o : fop) : st :=
       if memb t (registered s) || negb (tvalid (th s t)) then s else
       {| clock := clock s; th := th s; registered := registered s ++ [t]; newflag := true;
          invalid_cnt := invalid_cnt s; cache := cache s; pc := pc s; tsnow := tsnow s; lg := lg s; sk := sk s;
-         nsinks := nsinks s; nloggers := nloggers s; flags := flags s; obs := obs s;
+         nsinks := nsinks s; nloggers := nloggers s; lastfl := lastfl s; flags := flags s; obs := obs s;
          issued := issued s; delivered := delivered s; plog := plog s; gh := gh s |}
   | FTry t =>
       let x := th s t in
@@ -234,7 +236,7 @@ Definition fstep (s : st) (o : fop) : st :=
             let s' := set_th s (upd (th s) t x'') in
             {| clock := clock s'; th := th s'; registered := registered s'; newflag := newflag s';
                invalid_cnt := invalid_cnt s'; cache := cache s'; pc := pc s'; tsnow := tsnow s'; lg := lg s'; sk := sk s';
-               nsinks := nsinks s'; nloggers := nloggers s'; flags := flags s'; obs := obs s';
+               nsinks := nsinks s'; nloggers := nloggers s'; lastfl := lastfl s'; flags := flags s'; obs := obs s';
                issued := upd (issued s') t (issued s' t ++ [eid e]); delivered := delivered s'; plog := plog s'; gh := gh s' |}
         | None =>
             (* denied: count once per statement, and only ordinary log statements *)
@@ -264,7 +266,7 @@ Definition fstep (s : st) (o : fop) : st :=
         let s' := set_th s (upd (th s) t (set_thr_valid x false)) in
         {| clock := clock s'; th := th s'; registered := registered s'; newflag := newflag s';
            invalid_cnt := (invalid_cnt s' + 1) mod 2 ^ c_bits K; cache := cache s'; pc := pc s'; tsnow := tsnow s'; lg := lg s'; sk := sk s';
-           nsinks := nsinks s'; nloggers := nloggers s'; flags := flags s'; obs := obs s';
+           nsinks := nsinks s'; nloggers := nloggers s'; lastfl := lastfl s'; flags := flags s'; obs := obs s';
            issued := issued s'; delivered := delivered s'; plog := plog s'; gh := gh s' |}
       else if tvalid x then set_th s (upd (th s) t (set_thr_valid x false)) else s
   | FSetLevel l v => set_lg s (upd (lg s) l (set_llevel (lg s l) v))
@@ -338,6 +340,15 @@ Fixpoint active_sinks (s : st) (n : nat) (i : nat) (acc : list nat) : list nat :
   match n with O => acc | S n' => active_sinks s n' (S i) (uniq_app acc (lsinks (lg s i))) end.
 Definition flush_sinks (s : st) : st :=
   add_obs s (flat_map (fun k => [O_FLUSH; N.of_nat k]) (active_sinks s (nloggers s) 0 [])).
+Definition set_lastfl s v := {| clock := clock s; th := th s; registered := registered s; newflag := newflag s;
+  invalid_cnt := invalid_cnt s; cache := cache s; pc := pc s; tsnow := tsnow s; lg := lg s; sk := sk s;
+  nsinks := nsinks s; nloggers := nloggers s; lastfl := v; flags := flags s; obs := obs s;
+  issued := issued s; delivered := delivered s; plog := plog s; gh := gh s |}.
+(* _flush_and_run_active_sinks(true, sink_min_flush_interval) of the idle stage: interval 0 = always;
+   otherwise only when more than the interval has passed since the last idle flush *)
+Definition idle_flush (iv : N) (s : st) : st :=
+  if iv =? 0 then flush_sinks s
+  else if iv <? clock s - lastfl s then set_lastfl (flush_sinks s) (clock s) else s.
 
 (* what reaches the sink: the statement's id, or 0 when its message was replaced by an error text *)
 Definition wid (e : ev) : N := match efmt e with FOk => eid e | _ => 0 end.
@@ -403,7 +414,7 @@ Fixpoint cleanup_loop (fuel : nat) (s : st) : st :=
           {| clock := clock s1; th := upd (th s1) u (destroy (th s1 u)); registered := remove_nat u (registered s1); newflag := newflag s1;
              invalid_cnt := (invalid_cnt s1 + 2 ^ c_bits K - 1) mod 2 ^ c_bits K; cache := remove_nat u (cache s1);
              pc := pc s1; tsnow := tsnow s1; lg := lg s1; sk := sk s1; nsinks := nsinks s1; nloggers := nloggers s1;
-             flags := flags s1; obs := obs s1; issued := issued s1; delivered := delivered s1; plog := plog s1;
+             lastfl := lastfl s1; flags := flags s1; obs := obs s1; issued := issued s1; delivered := delivered s1; plog := plog s1;
              gh := gh_lost (gh s1) (failc (th s1 u)) |}
     end
   end.
@@ -474,12 +485,12 @@ Definition pop_event (s : st) (u : nat) (e : ev) : st :=
   let x := th s u in
   {| clock := clock s; th := upd (th s) u (set_thr_tbuf x (tl (tbuf x)) (tcap x)); registered := registered s;
      newflag := newflag s; invalid_cnt := invalid_cnt s; cache := cache s; pc := pc s; tsnow := tsnow s; lg := lg s;
-     sk := sk s; nsinks := nsinks s; nloggers := nloggers s; flags := flags s; obs := obs s; issued := issued s;
+     sk := sk s; nsinks := nsinks s; nloggers := nloggers s; lastfl := lastfl s; flags := flags s; obs := obs s; issued := issued s;
      delivered := upd (delivered s) u (delivered s u ++ [eid e]); plog := plog s ++ [e]; gh := gh s |}.
 Definition set_flag (s : st) (f : N) : st :=
   {| clock := clock s; th := th s; registered := registered s; newflag := newflag s; invalid_cnt := invalid_cnt s;
      cache := cache s; pc := pc s; tsnow := tsnow s; lg := lg s; sk := sk s; nsinks := nsinks s; nloggers := nloggers s;
-     flags := flags s ++ [f]; obs := obs s; issued := issued s; delivered := delivered s; plog := plog s; gh := gh s |}.
+     lastfl := lastfl s; flags := flags s ++ [f]; obs := obs s; issued := issued s; delivered := delivered s; plog := plog s; gh := gh s |}.
 
 (* _process_lowest_timestamp_transit_event; returns false when every buffer is empty *)
 Definition process_min (s : st) : st * bool :=
@@ -529,7 +540,7 @@ Definition bstep (s : st) : st :=
       let tn := if c_grace K =? 0 then MAXTS else clock s - c_grace K in
       {| clock := clock s; th := th s; registered := registered s; newflag := newflag s;
          invalid_cnt := invalid_cnt s; cache := cache s; pc := PTimed; tsnow := tn; lg := lg s; sk := sk s;
-         nsinks := nsinks s; nloggers := nloggers s; flags := flags s; obs := obs s;
+         nsinks := nsinks s; nloggers := nloggers s; lastfl := lastfl s; flags := flags s; obs := obs s;
          issued := issued s; delivered := delivered s; plog := plog s; gh := gh s |}
   | PTimed =>
       let s1 := if c_refresh2 K then refresh s else s in set_pc s1 (PReading (cache s1))
@@ -546,7 +557,7 @@ Definition bstep (s : st) : st :=
       let (s1, pending) := pending_scan s0 (cache s0) in
       if pending then set_pc s1 PIdle
       else let (s2, did) := process_min s1 in if did then set_pc s2 PBatch else set_pc s2 PIdle
-  | PIdle1 => set_pc (flush_sinks s) PIdle2
+  | PIdle1 => set_pc (idle_flush (c_flush_iv K) s) PIdle2
   | PIdle2 => set_pc (report_failures s (cache s)) PIdle3
   | PIdle3 =>
       let s0 := refresh s in
@@ -558,3 +569,6 @@ Inductive op := F (o : fop) | B.
 Definition step (s : st) (o : op) : st := match o with F f => fstep s f | B => bstep s end.
 Definition run (s : st) (ops : list op) : st := fold_left step ops s.
 End BE.
+
+Ltac idle_cases := unfold idle_flush; match goal with |- context [if ?iv =? 0 then flush_sinks ?s else _] =>
+  destruct (iv =? 0); [|destruct (iv <? clock s - lastfl s)] end.
